@@ -459,7 +459,7 @@ class C10(Suite):
         quick = tier == "quick"
         yield from self.src_cases(rng, 400 if quick else 10000)
         yield from self.grid_cases(rng, quick)
-        yield from self.random_programs(rng, 2500 if quick else 150000)
+        yield from self.random_programs(rng, 6000 if quick else 150000)
         yield from self.lib_cases(rng, quick)
 
     def src_cases(self, rng, n):
@@ -840,6 +840,16 @@ class C10(Suite):
         if c["op"] == "src":
             for i in range(len(c["ops"])):
                 yield {**c, "ops": c["ops"][:i] + c["ops"][i + 1:]}
+            return
+        if c["op"] == "lib":
+            data = b"".join(bytes.fromhex(x) for x in c["chunks"])
+            if len(c["chunks"]) > 1:
+                yield {**c, "chunks": [data.hex()]}
+            if c.get("n") is not None and len(data) > c["n"] + 1:
+                yield {**c, "chunks": [data[:-1].hex()]}
+            if c["mode"] == "wrap" and c["m"] not in ("Object.parser", "Message_Router.parser",
+                                                      "Connection_Manager.parser", "Logix.parser"):
+                yield {**c, "mode": "kw"}
             return
         if c["op"] != "eng":
             return
